@@ -4,7 +4,7 @@
    the hand-written driver.  No Extract Constant. *)
 From Coq Require Extraction.
 From Coq Require Import ExtrOcamlBasic.
-From ASModel Require Import Base SetMatch SrcLoc Report PathRes.
+From ASModel Require Import Base SetMatch SrcLoc Report PathRes Tokens Ast IR Expand Nodes Print.
 Extraction Language OCaml.
 Set Extraction KeepSingleton.
 Extraction "model.ml"
@@ -12,4 +12,5 @@ Extraction "model.ml"
   SrcLoc.byte_offset_of SrcLoc.span_of SrcLoc.byte_offset_of_old SrcLoc.span_of_old
   SrcLoc.linecol SrcLoc.prefix_len SrcLoc.is_boundary SrcLoc.blen
   Report.error_label Report.node_display Report.fallback_display
-  PathRes.absolute_source_path PathRes.absolute_source_path_old PathRes.components.
+  PathRes.absolute_source_path PathRes.absolute_source_path_old PathRes.components
+  Print.expand_top Nodes.gen_nodes Nodes.location Expand.expand Nodes.node_kind_of.
